@@ -12,7 +12,7 @@ TECHNIQUE = "explicit enumeration of all event histories (execute / check-condit
 RULE = ("all sequences of up to D events (D=5 quick, 6 thorough) over {execute GOOD, execute CHECK CONDITION, replug (node replaced by a new "
         "inode), unplug, sabotage (next close() of the live handle fails with EBADF)}, each followed by every closing event {none, close(), "
         "with-block normal exit, with-block exit by exception, SCSI facade with-block exit}, x replug detection {on, off} x {read-only, "
-        "read-write}; histories one event shorter also with the device path being a symbolic link to the node that is replaced; plus ISCSIDevice close/with/disconnect histories. states = distinct (reference-model state, observed handle set) "
+        "read-write}; histories one event shorter also with the device path being a symbolic link to the node that is replaced, and with the node being a character special file replaced by one of the same device number; plus ISCSIDevice close/with/disconnect histories. states = distinct (reference-model state, observed handle set) "
         "pairs; transitions = events executed on the real device. Non-trivial = history contains replug, unplug or sabotage.")
 ASSUMPTIONS = [
     "device nodes are real files under /dev/shm/pyscsi-verif-<pid>/ (real inodes, real open/stat/close); replug = rename of a new file over the path, old inode kept alive by a hard link so inode numbers are never recycled",
@@ -45,7 +45,7 @@ class Boom(Exception):
     pass
 
 
-def run_history(detect, rw, events, closer, obs=None, symlink=False):
+def run_history(detect, rw, events, closer, obs=None, symlink=False, chr=False):
     """replay one history on a fresh device; returns violations"""
     install.ensure()
     from pyscsi.pyscsi.scsi_cdb_testunitready import TestUnitReady
@@ -60,7 +60,7 @@ def run_history(detect, rw, events, closer, obs=None, symlink=False):
             cur = None
         seen.append((st.st_ino, cur))
 
-    node = nodes.Node(lambda g: Target(), symlink=symlink)
+    node = nodes.Node(lambda g: Target(), symlink=symlink, chr=chr)
     registry.sgio_hooks.append(hook)
     dev = None
     try:
@@ -271,7 +271,7 @@ def run_iscsi(seq, obs=None):
 def run_case(case, obs=None):
     if case[0] == "sg":
         _, detect, rw, events, closer = case[:5]
-        return run_history(detect, rw, events, closer, obs, symlink=len(case) > 5 and bool(case[5]))
+        return run_history(detect, rw, events, closer, obs, symlink=len(case) > 5 and case[5] == 1, chr=len(case) > 5 and case[5] == 2)
     return run_iscsi(case[1], obs)
 
 
@@ -318,4 +318,9 @@ def run_partition(part, tier, seed):
         # the same history with the device addressed through a symbolic link to the node (as /dev/disk/by-id/ paths are)
         if len(events) <= D - 1:
             do(["sg", detect, rw, events, "close", 1], any(e in events for e in "rus"), len(events))
+            # ... and with the node being a character special file whose replacement has the same device number (as a re-plugged /dev/sgN has)
+            if nodes.chr_supported():
+                do(["sg", detect, rw, events, "close", 2], any(e in events for e in "rus"), len(events))
+            else:
+                acc.extra["character_special_nodes"] = ["not available in this environment (mknod refused): histories over character special files skipped"]
     return acc
